@@ -109,6 +109,13 @@ func init() {
 			c.guard("RW.TMPL.FORPOST", func() { r.ruleScopeAgree(true, "forpost") })
 			c.guard("RW.TMPL.COMBINESPLIT", r.ruleTmplCombineSplit)
 			c.guard("RW.TMPL.SWITCH.GUARD", r.ruleTmplStmts)
+			// a loop condition / post statement refers to its variables each time it runs: they are wrapped in
+			// function literals (a bare callee `f` for `for f() {…}` copies the func variable's value once)
+			c.guard("RW.TMPL.FOR", r.ruleTmplFor)
+			// no statement runs that the source does not run: a loop value that is run again starts from scratch
+			// (a post statement fired before the first iteration changes a local between suspensions)
+			s3 := newSeqRT(c)
+			c.guard("SEQ.FOR", s3.ruleFor)
 			// scoping only: the combine table, hoisting (not return rewriting), the consumer loop's binding form
 			c.keep(func(o Obligation) bool {
 				switch o.Rule {
@@ -117,6 +124,12 @@ func init() {
 				case "RW.TMPL.RETURN", "RW.TMPL.RANGE.TUPLE": // evaluation order of '=' range bindings is C04's
 					return false
 				case "RW.TMPL.IF", "RW.TMPL.SWITCH": // dropped statements / clauses are C01's; only the guard's binding is scoping
+					return false
+				case "RW.TMPL.FOR":
+					return strings.Contains(o.Construct, "wrapped in a thunk")
+				case "SEQ.FOR":
+					return strings.Contains(o.Construct, "second run")
+				case "SEQ.LAZY":
 					return false
 				case "RW.TMPL.CONSUMER":
 					return strings.Contains(o.Construct, "<Ident>") || strings.Contains(o.Construct, "nested in its own block")
